@@ -368,14 +368,15 @@ example : ¬ ∃ bounds : Nat → Rect Int, ∀ op ∈ ([Op.insert ⟨1, ⟨0, 0
   rw [← h1] at h2
   simp at h2
 
-/-- the contract is needed (CONTRAST): if an object's bounds change WHILE it is stored, `Remove` — which descends only
-    into tree nodes whose rectangle contains the bounds it is given — does not find the entry, so `All` keeps a node
-    the specification has removed.  Here node 1 sits in a subdivided quadrant of a 8×8 root and is removed under the
-    bounds `(6,6,1,1)` of another quadrant. -/
+/-- the contract is needed (CONTRAST): if an object's bounds change WHILE it is stored, `Remove` — which descends below
+    a subdivided tree node only when that node's rectangle contains the bounds it is given — does not find the entry, so
+    `All` keeps a node the specification has removed.  Here node 1 sits in a quadrant of a subdivided 8×8 root and is
+    removed under the bounds `(100,100,1,1)`, outside the root.  (Bounds that moved to ANOTHER QUADRANT of the same parent
+    would still be found: below a containing parent all four children are tried.) -/
 theorem contract_needed :
     let ops : List (Op (Rect Int)) :=
       [Op.insert ⟨0, ⟨0, 0, 8, 8⟩⟩, Op.reorganize, Op.insert ⟨1, ⟨1, 1, 1, 1⟩⟩, Op.insert ⟨2, ⟨1, 1, 1, 1⟩⟩,
-       Op.insert ⟨3, ⟨1, 1, 1, 1⟩⟩, Op.insert ⟨4, ⟨1, 1, 1, 1⟩⟩, Op.remove 1 ⟨6, 6, 1, 1⟩]
+       Op.insert ⟨3, ⟨1, 1, 1, 1⟩⟩, Op.insert ⟨4, ⟨1, 1, 1, 1⟩⟩, Op.remove 1 ⟨100, 100, 1, 1⟩]
     ¬ HistOK ([] : List (Item (Rect Int))) ops ∧
     ids (Tree.run 10 4 ops).all = [0, 1, 2, 3, 4] ∧ ids (specRunI ops) = [4, 3, 2, 0] := by
   refine ⟨?_, by decide, by decide⟩
